@@ -10,11 +10,12 @@ Conf == IOEnv.VERIF_MODE = "conf"
 tvars == <<vars, l>>
 
 Observed(r) == /\ pc' = r.pc /\ wpc' = r.wpc /\ permH' = r.permH /\ permN' = r.permN
-               /\ canc' = r.canc /\ exec' = r.exec /\ done' = r.done /\ res' = r.res
+               /\ canc' = r.canc /\ first' = r.first /\ exec' = r.exec /\ done' = r.done /\ res' = r.res
+               /\ why' = r.why /\ exret' = r.exret
                /\ rejected' = r.rejected /\ queued' = r.queued /\ timeouts' = r.timeouts
 
 Fresh(P) == /\ chan' = [c \in DOMAIN P.cal |-> "none"] /\ st' = [c \in DOMAIN P.cal |-> "none"]
-            /\ fired' = [x \in DOMAIN P.can |-> FALSE] /\ hist' = <<>>
+            /\ fired' = [x \in DOMAIN P.ev |-> FALSE] /\ hist' = <<>>
 
 Load(r) == /\ par' = r.par /\ Observed(r) /\ queue' = <<>> /\ wcur' = "none" /\ Fresh(r.par)
            /\ r.qlen = 0 /\ r.wpc = "idle" /\ r.permH = 0 /\ r.permN = 0
@@ -46,6 +47,5 @@ TNext == /\ l < Len(Trace) /\ l' = l + 1
               \/ (r.ev # "reset" /\ IF Conf THEN ConfStep(r) ELSE ObsStep(r))
 TSpec == TInit /\ [][TNext]_tvars
 
-\* the limiter's own in-flight gauges never exceed the limits either
 Post == LET d == TLCGet("stats").diameter IN PrintT(<<"HWM", d>>) /\ d = Len(Trace)
 =============================================================================
